@@ -340,6 +340,7 @@ func c07ErrClass(err error) string {
 		{"current minimum account expiry", "expiryLow"},
 		{"current maximum account expiry", "expiryHigh"},
 		{"unsupported output script", "unsupportedScript"},
+		{"pays to the account's own output script", "ownScript"},
 		{"unable to parse output script", "unparsable"},
 		{"unsupported script type", "unparsable"},
 		{"new account value is below accepted minimum", "belowMin"},
@@ -698,6 +699,21 @@ func (x *c07Run) execOp(cs *c07Case) {
 		if after.Expiry != cs.ExpH {
 			viol("new expiry not recorded")
 		}
+	}
+	// cooperative vs expiry path: a trader-only spend (no auctioneer request, lock
+	// time = best height) only once the account has expired; otherwise the
+	// auctioneer is asked exactly once and the lock time is 0
+	if expired {
+		if cs.Kind != "close" {
+			viol("modification accepted on the expiry path")
+		}
+		if nM != 0 || pub.LockTime != cs.Best {
+			viol(fmt.Sprintf("expiry-path spend with %d auctioneer requests and lock time %d (best %d)", nM, pub.LockTime, cs.Best))
+		}
+	} else if nM != 1 || pub.LockTime != 0 {
+		r.Count("oracle/path")
+		r.Violate(fmt.Sprintf("%s: account not expired (expiry %d, best %d) but spent with %d auctioneer requests and lock time %d",
+			cs.Kind, cs.Acct.Expiry, cs.Best, nM, pub.LockTime), "C07/spend-path", cs)
 	}
 	// the account outpoint is spent exactly once
 	cnt := 0
